@@ -517,7 +517,7 @@ func TestC01(t *testing.T) {
 	if explicit {
 		return
 	}
-	vcore.Check(t, vcore.N(120, 500), func(rt *rapid.T) {
+	vcore.Check(t, vcore.N(120, 1000), func(rt *rapid.T) {
 		ops := genHistory(rt)
 		explore(rt, ops, rt)
 	})
